@@ -25,7 +25,7 @@ static ref::LD scaleOf(const MonG& X, const MonG& Y, const MonG& Z) { Scale s; a
 
 static MonG makeElement(Prng& r, std::string& label, bool viaExp) {
   const ref::Group& g = RG();
-  GenOpt o; o.thetaMax = 3.14159265358979323846; o.nearPiMin = 0; o.linMax = 1e6;
+  GenOpt o; o.thetaMax = 3.14159265358979323846; o.nearPiMin = 0; o.linMax = 1e6; o.exactCoeff = 0.03;
   if (!viaExp) return groupFrom<MonG>(genElement<MonS>(g, r, o, label));
   o.beyondPi = true; o.thetaMax = 7;
   MonG X = tangentFrom<MonT>(genTangent<MonS>(g, r, o, label)).exp();
